@@ -572,6 +572,46 @@ func init() {
 			}
 			return nil, true
 		},
+		"errors.As": func(fr *frame, args []value) (value, bool) {
+			// errors.As(err, target): target is a non-nil pointer to a variable of an interface type or of a type
+			// implementing error; the first error of the Unwrap chain assignable to it is stored there
+			err, ok1 := args[0].(iface)
+			target, ok2 := args[1].(iface)
+			if !ok1 || !ok2 || target.t == nil {
+				unsupported("errors.As: target")
+			}
+			pt, isPtr := target.t.Underlying().(*types.Pointer)
+			cell, isCell := target.v.(*value)
+			if !isPtr || !isCell || cell == nil {
+				unsupported("errors.As: target is not a pointer to a variable")
+			}
+			elem := pt.Elem()
+			for depth := 0; depth < 32; depth++ {
+				if err.t == nil {
+					return false, true
+				}
+				if it, isIface := elem.Underlying().(*types.Interface); isIface {
+					if types.Implements(err.t, it) {
+						*cell = err
+						return true, true
+					}
+				} else if sameType(err.t, elem) {
+					*cell = err.v
+					return true, true
+				}
+				m := methodOf(fr.i, err.t, "Unwrap")
+				if m == nil {
+					return false, true
+				}
+				sig := m.Type().(*types.Signature)
+				if sig.Results().Len() != 1 || !types.Identical(sig.Results().At(0).Type(), types.Universe.Lookup("error").Type()) {
+					return false, true
+				}
+				fn := fr.i.prog.LookupMethod(err.t, m.Pkg(), "Unwrap")
+				err = call(fr.i, fr, token.NoPos, fn, []value{err.v}).(iface)
+			}
+			return false, true
+		},
 		"errors.Is": func(fr *frame, args []value) (value, bool) {
 			err, target := args[0].(iface), args[1].(iface)
 			for depth := 0; depth < 32; depth++ {
